@@ -608,7 +608,7 @@ def call_sites(path, result_parts):
             continue
         r = key_root(k)
         roots_ok.append(bool((seed is not None and r.eq(seed)) or (seed is None and r.eq(J.K_OF(z3.IntVal(0)))) or
-                             (r.decl().name().startswith('carry') and r.num_args() == 0)))
+                             any(r.eq(k) for k in getattr(run, 'jx_carried_keys', []))))
     ks = [k for _, k in keys] + [s['seed'] for s in scs[:1]]
     for a in range(len(ks)):
         for b2 in range(a + 1, len(ks)):
@@ -913,6 +913,8 @@ def suggest_post(path):
     c = run.c19
     d, sizes = c.d, c.sizes
     N = 'C19.eagle.suggest.'
+    if path.kind == 'end':
+        return []
     if path.kind != 'return':
         return [(N + 'returns', z3.BoolVal(False))]
     f = path.value
@@ -984,6 +986,8 @@ def state_post(prefix):
     def post(path):
         run = path.run
         c = run.c19
+        if path.kind == 'end':
+            return []
         if path.kind != 'return':
             return [(prefix + 'returns', z3.BoolVal(False))]
         st = path.value
@@ -1058,6 +1062,8 @@ def sampler_post(path):
     c = run.c19
     d, sizes = c.d, c.sizes
     N = 'C19.eagle.DefaultRandomSampler.'
+    if path.kind == 'end':
+        return []
     if path.kind != 'return':
         return [(N + 'returns', z3.BoolVal(False))]
     f = path.value
@@ -1089,6 +1095,8 @@ def projection_post(path):
     c = run.c19
     d = c.d
     N = 'C19.eagle.DefaultProjection.'
+    if path.kind == 'end':
+        return []
     if path.kind != 'return':
         return [(N + 'returns', z3.BoolVal(False))]
     f = path.value
@@ -1181,6 +1189,8 @@ def random_post(path):
     c = run.c19
     d = c.d
     N = 'C19.random.suggest.'
+    if path.kind == 'end':
+        return []
     if path.kind != 'return':
         return [(N + 'returns', z3.BoolVal(False))]
     f = path.value
@@ -1233,6 +1243,8 @@ def factory_post(path):
     c = run.c19
     d = c.d
     N = 'C19.factory[%s].' % c.kind
+    if path.kind == 'end':
+        return []
     if path.kind != 'return':
         return [(N + 'returns', z3.BoolVal(False))]
     opt = path.value
